@@ -19,7 +19,7 @@ Clause of the property → theorems
 * arithmetic / comparison / norms / string conversion: `ops_agree_with_cxx_model`, `scalar_ops_spec`,
   `plain_ops_entrywise`, `norms_spec`, `inplace_agrees`, `str_spec`
 * memory sharing: `view_aliases`, `sliceview_aliases`, `npvector_writes_through_view`, `npvector_scale_visible`,
-  `copy_independent`, `npcopy_independent`
+  `converted_buffer_is_a_copy`, `converted_buffer_is_fresh`, `copy_independent`, `npcopy_independent`
 * never touching memory outside the object, for all programs: `invariant_initial`, `invariant_step`,
   `all_histories_safe`
 * tuple vectors: `tuplevector_preserves`
@@ -200,7 +200,7 @@ theorem view_aliases (n : Nat) (s : State) (hinv : Inv (.fv n) s) (x a b : Nat) 
   rw [step_view n s a x b hx]
   refine ⟨by rw [viewVals_fullView], ?_, ?_⟩
   · -- write through the view
-    rw [step_aset (.fv n) hv _ a _ i k (bindA_arrs_same _ _ _) hi hk]
+    rw [step_aset (.fv n) hv _ a _ i k (bindA_arrs_same _ _ _) rfl hi hk]
     simp only [fullView, hn]
     rw [step_get (.fv n) hv _ x b i (by rw [write_xs, bindA_xs]; exact hx)]
     have hlen : b < (s.bindA a { blk := b, off := 0, step := 1, len := (s.read b).length }).blocks.length := hb
@@ -261,7 +261,7 @@ theorem sliceview_aliases (n : Nat) (s : State) (hinv : Inv (.fv n) s) (x a b : 
     exact normIndex_nonneg n pos hbnd.1 hbnd.2
   rw [hs1]
   constructor
-  · rw [step_aset (.fv n) hv _ a _ (p : Int) k (bindA_arrs_same _ _ _) hpi hk]
+  · rw [step_aset (.fv n) hv _ a _ (p : Int) k (bindA_arrs_same _ _ _) rfl hpi hk]
     simp only [hnp, hposNat]
     rw [step_get (.fv n) hv _ x b pos (by rw [write_xs, bindA_xs]; exact hx)]
     rw [read_write_same _ b _ (by rw [bindA_blocks]; exact hb), bindA_read]
@@ -291,10 +291,11 @@ theorem npvector_writes_through_view (s : State) (v : View) (vals : List Int) (h
     ((s.viewWrite v vals).read v.blk).length = (s.read v.blk).length :=
   viewWrite_spec s v vals hv hl
 
-/-- … instantiated for `x *= k` on a `NumPyVector` over any array register of a reachable state, and for the
+/-- … instantiated for `x *= k` on a `NumPyVector` over any array register of doubles of a reachable state, and for the
     `NumPyVector` over `numpy.array(v, copy=False)`: the FieldVector itself is scaled. -/
 theorem npvector_scale_visible (kd : Kind) (hkd : kd.isVec = true) (s : State) (hinv : Inv kd s) (a : Nat) (v : View)
-    (k : Int) (ha : s.arrs a = some v) (hk : okInt k = true) (hok : okVals (vscale k (s.viewVals v)) = true) :
+    (k : Int) (ha : s.arrs a = some v) (hdt : v.dt = 0) (hk : okInt k = true)
+    (hok : okVals (vscale k (s.viewVals v)) = true) :
     let s1 := (step kd s (.v (.nscale a k))).1
     s1.viewVals v = vscale k (s.viewVals v) ∧
     (∀ c, c ≠ v.blk → s1.read c = s.read c) ∧
@@ -305,7 +306,7 @@ theorem npvector_scale_visible (kd : Kind) (hkd : kd.isVec = true) (s : State) (
   intro s1
   have hs1 : s1 = s.viewWrite v (vscale k (s.viewVals v)) := by
     show (step kd s (.v (.nscale a k))).1 = _
-    rw [step_nscale kd hkd s a v k ha hk hok]
+    rw [step_nscale kd hkd s a v k ha hdt hk hok]
   rw [hs1]
   refine ⟨hspec.1, hspec.2.2.1, ?_⟩
   intro b hvb
@@ -326,6 +327,79 @@ example :
     let s1 := (step (.fv 6) s0 (.v (.sl 0 0 none none (some 2)))).1
     (step (.fv 6) s1 (.v (.nscale 0 3))).2 = "[3,9,15]" ∧
     (step (.fv 6) (step (.fv 6) s1 (.v (.nscale 0 3))).1 (.v (.iter 0))).2 = "[3,2,9,4,15,6]" := by decide
+
+/-- Sharing only where the buffer protocol promises it: over a buffer whose element type is not `double` (int64, int32,
+    int16, int8, uint8, uint16, float32 NumPy arrays, `array.array` of the corresponding typecodes) a `NumPyVector<double>`
+    holds a converted copy.  Every writing operation of the vector (`*=`, `[i] =`, `axpy`, `+=`, the `x[i] += i` loop)
+    leaves the whole store — in particular the buffer object — unchanged; a read-only buffer is rejected (also unchanged). -/
+theorem converted_buffer_is_a_copy (kd : Kind) (hkd : kd.isVec = true) (s : State) (a b : Nat) (v : View) (i k : Int)
+    (ha : s.arrs a = some v) (hdt : v.dt ≠ 0) :
+    (step kd s (.v (.nscale a k))).1 = s ∧ (step kd s (.v (.nset a i k))).1 = s ∧
+    (step kd s (.v (.naxpy a k b))).1 = s ∧ (step kd s (.v (.nadd a b))).1 = s ∧ (step kd s (.v (.nrun a))).1 = s := by
+  refine ⟨?_, ?_, ?_, ?_, ?_⟩
+  · rw [step_v kd hkd]
+    simp only [vecEff, ha]
+    split
+    · rfl
+    · exact nvWrite_foreign s v _ hdt
+  · rw [step_v kd hkd]
+    simp only [vecEff, ha]
+    split
+    · rfl
+    · exact nvWriteCell_foreign s v _ _ hdt
+  · rw [step_v kd hkd]
+    simp only [vecEff, ha]
+    cases hb : s.arrs b with
+    | none => rfl
+    | some vb =>
+      simp only []
+      repeat' split
+      all_goals first
+        | rfl
+        | exact nvWrite_foreign s v _ hdt
+  · rw [step_v kd hkd]
+    simp only [vecEff, ha]
+    cases hb : s.arrs b with
+    | none => rfl
+    | some vb =>
+      simp only []
+      repeat' split
+      all_goals first
+        | rfl
+        | exact nvWrite_foreign s v _ hdt
+  · rw [step_v kd hkd]
+    simp only [vecEff, ha]
+    split
+    · rfl
+    · exact nvWrite_foreign s v _ hdt
+
+/-- A buffer object built from the numbers of an array (`numpy.array(a, dtype=…)`, a strided / reversed layout of it,
+    `array.array(typecode, a)`) is a new object: no existing object changes, and the new view denotes cells of the new
+    object only. -/
+theorem converted_buffer_is_fresh (kd : Kind) (hkd : kd.isVec = true) (s : State) (a b dt : Nat) (lay : Lay) (vb : View)
+    (hb : s.arrs b = some vb) (hok : (s.viewVals vb).all (dtOk dt) = true) :
+    let s1 := (step kd s (.v (.ndt a b dt lay false))).1
+    (∀ c, c < s.blocks.length → s1.read c = s.read c) ∧
+    (∃ v, s1.arrs a = some v ∧ v.blk = s.blocks.length ∧ v.dt = dt ∧ v.len = vb.len) := by
+  intro s1
+  have hs1 : s1 = (s.alloc (stridedMem lay.stride (s.viewVals vb)).1).1.bindA a
+      { blk := s.blocks.length, off := (stridedMem lay.stride (s.viewVals vb)).2, step := lay.stride,
+        len := (s.viewVals vb).length, dt := dt } := by
+    show (step kd s (.v (.ndt a b dt lay false))).1 = _
+    rw [step_v kd hkd]
+    simp [vecEff, hb, hok, Eff.apply, alloc_fresh]
+  rw [hs1]
+  refine ⟨fun c hc => ?_, ⟨_, bindA_arrs_same _ _ _, rfl, rfl, ?_⟩⟩
+  · rw [bindA_read, read_alloc_old s _ c hc]
+  · simp [State.viewVals]
+
+example :
+    let s0 := (step (.fv 3) {} (.v (.new 0 .list [1, 2, 3]))).1
+    let s1 := (step (.fv 3) s0 (.v (.view 0 0))).1
+    let s2 := (step (.fv 3) s1 (.v (.ndt 1 0 2 .r2 false))).1            -- a1 = an int32 array, reversed every 2nd entry
+    (step (.fv 3) s2 (.v (.nscale 1 5))).2 = "w:30:[1,2,3]" ∧             -- the vector shows 5,10,15; the array keeps 1,2,3
+    (step (.fv 3) s2 (.v (.nnorms 1))).2 = "[3,6,3,14]" ∧
+    (step (.fv 3) (step (.fv 3) s2 (.v (.aset 1 0 9))).1 (.v (.iter 0))).2 = "[1,2,3]" := by decide
 
 /-- A copy (`T(v)`, `v.copy()`) denotes fresh cells: it has the same entries, and afterwards writes to either
     side are invisible on the other. -/
